@@ -18,6 +18,20 @@ def outcome_key(o):
     return [o.kind, o.detail if o.kind != "ok" else "", [list(e) for e in o.errors]]
 
 
+def spelling_feature(ta, tb):
+    """do the two texts differ in a place where one of them holds a trigraph / digraph spelling?  (such a spelling is three /
+    two columns wide in the source and one character in the token value: width-based rules see another width)"""
+    feats = set()
+    for x, y in zip(ta.split("\n"), tb.split("\n")):
+        if x != y:
+            for t in (x, y):
+                if any(("??" + c) in t for c in "<>()=/'!-"):
+                    feats.add("trigraph")
+                elif any(d in t for d in ("<%", "%>", "<:", ":>", "%:")):
+                    feats.add("digraph")
+    return "+".join(sorted(feats)) or "plain"
+
+
 def diff_fp(prop, a, b):
     """fingerprint of a difference between two outcome keys: the codes present on one side only"""
     if a[0] != b[0] or a[1] != b[1]:
@@ -215,6 +229,8 @@ C17_MICRO = [
     # multi-line block comments whose CLOSING line carries something the tool locates by column (trailing blank, code)
     ("a8.c", "/*\n** {K}\n*/ \nint\tfn(void)\n{\n\treturn (0);\n}\n/* {K}\n{K} */\t\n"),
     ("a9.c", "/* {K}\n*/ int\tg_a;\n\n/*\n{K}*/int\tfn(void)\n{\n\treturn (0);\n} /* {K}\n{K} */ \n"),
+    # comment lines that cross the 80-column limit only through their (symbolic) last characters
+    ("a10.c", "// " + "x" * 75 + "{K}\n/*\n** " + "y" * 75 + "{K}\n*/\nint\tfn(void)\n{\n\treturn (0);\n}\n/* " + "z" * 74 + "{K}\n*/\n"),
     ("a6.c", "int\tfn(char c)\n{\n\tchar\t*p;\n\n\tp = (char *){S};\n\tp = {S} + 1;\n\tc = {C} + 1;\n\tc = (char){C};\n\tc = -{C};\n\tfoo({S}, {S});\n\treturn (c == {C} || p[0] == {C});\n}\n"),
 ]
 
@@ -444,7 +460,10 @@ def run_chunk(chunk, ctx):
             elif ckey != ref[rk][0]:
                 m = ex.model()
                 text = SymStr(its).concretize(m)
-                col.violation(diff_fp(prop, ref[rk][0], ckey),
+                fp = diff_fp(prop, ref[rk][0], ckey)
+                if prop == "C17":
+                    fp += ":" + spelling_feature(ref[rk][1], text)
+                col.violation(fp,
                               f"{'renaming identifiers' if prop == 'C18' else 'replacing comment/literal text'} changes the diagnostics",
                               dict(prop=prop, name=prog.name, a=ref[rk][1], b=text))
                 cur["viol"] = True
@@ -598,7 +617,7 @@ def replay(case):
     if prop in ("C17", "C18"):
         viol = []
         if ka != kb:
-            viol.append([diff_fp(prop, ka, kb), "diagnostics differ"])
+            viol.append([diff_fp(prop, ka, kb) + ((":" + spelling_feature(case["a"], case["b"])) if prop == "C17" else ""), "diagnostics differ"])
         return dict(digest=dict(same=(ka == kb), key=kb), violations=viol)
     res = check_c19(case["mode"], ka, kb, case["at"], case["by"], case["nbase"])
     return dict(digest=dict(ok=not res), violations=[list(res)] if res else [])
